@@ -282,6 +282,24 @@ def py_rules(res):
                               line=init.lineno, construct="generic iterable adapter does not sort",
                               detail="arbitrary iterables must be sorted", path=[]))
     else:
+        # the sort is skipped only for containers (classes below _Base): only
+        # those are known to iterate in strictly increasing key order
+        exempt = []
+        for iff in ast.walk(init):
+            if isinstance(iff, ast.If) and any(x is sorts[0] for b in iff.body for x in ast.walk(b)):
+                for c in ast.walk(iff.test):
+                    if isinstance(c, ast.Call) and pyfront.unparse(c.func) == "isinstance" and len(c.args) == 2:
+                        t = c.args[1]
+                        exempt += [pyfront.unparse(x) for x in (t.elts if isinstance(t, ast.Tuple) else [t])]
+        for tname in exempt:
+            if tname != "_Base" and "_Base" not in pyfront.mro(tree, tname):
+                res.findings.add(dict(
+                    rule="OPERAND-ADAPT", function="_SetIteration.__init__", file=REL, line=init.lineno,
+                    construct="instances of %s are exempt from sorting" % tname,
+                    detail="only the containers (classes below _Base) iterate "
+                           "in strictly increasing key order; %s is not one "
+                           "of them (e.g. the lazy values() view of a tree is "
+                           "a _TreeItems and is unsorted with duplicates)" % tname, path=[]))
         arg = pyfront.unparse(sorts[0].args[0]) if sorts[0].args else ""
         dedupe = "set(" in arg or "fromkeys" in arg or any(
             isinstance(c, ast.Call) and pyfront.unparse(c.func) in ("set", "dict.fromkeys")
